@@ -36,6 +36,37 @@ func flipHex(s string) string {
 	return string(b)
 }
 
+// dupSignedHeader signs the request validly as root and then adds a second line with a forged value for one
+// signed x-amz header: the request's own first x-amz-* header other than date / content hash / framing ones
+// (copy source, tagging, acl, metadata ...), or an injected x-amz-meta-dup when it has none.
+func dupSignedHeader(r *gw.Req, ph string, before bool) gw.Signed {
+	name := ""
+	for _, h := range r.Headers {
+		l := strings.ToLower(h[0])
+		if strings.HasPrefix(l, "x-amz-") && l != "x-amz-date" && l != "x-amz-content-sha256" && l != "x-amz-decoded-content-length" && l != "x-amz-trailer" {
+			name = h[0]
+			break
+		}
+	}
+	if name == "" {
+		name = "x-amz-meta-dup"
+		r.Headers = append(r.Headers, [2]string{name, "original"})
+	}
+	sg := gw.Sign(r, gw.Root, gw.SignOpts{PayloadHash: ph})
+	var out [][2]string
+	for _, h := range r.Headers {
+		if h[0] == name && before {
+			out = append(out, [2]string{name, "forged-" + h[1]})
+		}
+		out = append(out, h)
+		if h[0] == name && !before {
+			out = append(out, [2]string{name, "forged-" + h[1]})
+		}
+	}
+	r.Headers = out
+	return sg
+}
+
 func credDefects() []credDefect {
 	bad := gw.Creds{Access: cUsr1.Access, Secret: "not-the-secret-of-usr1"}
 	badRoot := gw.Creds{Access: gw.RootAccess, Secret: "wrong-root-secret"}
@@ -114,6 +145,10 @@ func credDefects() []credDefect {
 			r.Body[len(r.Body)-1] ^= 1
 			return sg
 		}},
+		// a signed header repeated with another value: whichever line the handlers act on, the proof
+		// does not cover both lines
+		{"signed-header-forged-line-before", func(r *gw.Req, ph string) gw.Signed { return dupSignedHeader(r, ph, true) }},
+		{"signed-header-forged-line-after", func(r *gw.Req, ph string) gw.Signed { return dupSignedHeader(r, ph, false) }},
 		{"date-16min-future", func(r *gw.Req, ph string) gw.Signed {
 			sg := sign(r, gw.Root, ph, gw.SignOpts{Time: time.Now().Add(16 * time.Minute)})
 			return sg
